@@ -10,6 +10,8 @@ package main
 import (
 	"fmt"
 	"math/rand/v2"
+	"strconv"
+	"strings"
 
 	"verifh/vh"
 )
@@ -143,18 +145,76 @@ func genPackVals(r *rand.Rand, n int) []uint64 {
 	return v
 }
 
-func u64s(v []uint64) string { return vh.Ns(v) }
-func optU64s(v []uint64, ok bool) string {
-	if !ok {
-		return "None"
-	}
-	return vh.Some(vh.Ns(v))
+// ---- Gallina term rendering with sharing ----
+// Big list literals dominate the Coq-side cost (each number literal is interpreted by
+// the number notation), so identical literals are emitted once and shared through
+// `let`: the denoted term is exactly the same as with the literals repeated.
+type lets struct {
+	names map[string]string
+	binds []string
 }
-func optBytes(b []byte, ok bool) string {
+
+func (l *lets) ref(typ, lit string) string {
+	key := typ + "|" + lit
+	if l.names == nil {
+		l.names = map[string]string{}
+	}
+	if n, ok := l.names[key]; ok {
+		return n
+	}
+	n := fmt.Sprintf("x%d", len(l.binds))
+	l.names[key] = n
+	l.binds = append(l.binds, fmt.Sprintf("let %s : %s := %s in ", n, typ, lit))
+	return n
+}
+func (l *lets) wrap(body string) string {
+	return "(" + strings.Join(l.binds, "") + body + ")"
+}
+
+// numbers are written without %N: every shard opens N_scope
+func nlist(v []uint64) string {
+	var b strings.Builder
+	b.WriteByte('[')
+	for i, x := range v {
+		if i > 0 {
+			b.WriteString("; ")
+		}
+		b.WriteString(strconv.FormatUint(x, 10))
+	}
+	b.WriteByte(']')
+	return b.String()
+}
+func blist(v []byte) string {
+	var b strings.Builder
+	b.WriteByte('[')
+	for i, x := range v {
+		if i > 0 {
+			b.WriteString("; ")
+		}
+		b.WriteString(strconv.Itoa(int(x)))
+	}
+	b.WriteByte(']')
+	return b.String()
+}
+func (l *lets) u64s(v []uint64) string { return l.ref("list N", nlist(v)) }
+func (l *lets) optU64s(v []uint64, ok bool) string {
 	if !ok {
 		return "None"
 	}
-	return vh.Some(vh.Bytes(b))
+	return "(Some " + l.ref("list N", nlist(v)) + ")"
+}
+func (l *lets) optBytes(b []byte, ok bool) string {
+	if !ok {
+		return "None"
+	}
+	return "(Some " + l.ref("list N", blist(b)) + ")"
+}
+func (l *lets) bools(v []bool) string { return l.ref("list bool", vh.Bools(v)) }
+func (l *lets) optBools(v []bool, ok bool) string {
+	if !ok {
+		return "None"
+	}
+	return "(Some " + l.ref("list bool", vh.Bools(v)) + ")"
 }
 func lenClass(n int) string {
 	switch {
